@@ -5,12 +5,20 @@ handler table replaced by recorders, and datapaths.switch.OFConnection on a real
 set_message_handler(recorder), fed either through _push_receive_data or (via="recv") through the real
 IOWorker._do_recv reading a non-blocking fake socket once per select wake-up.  A recorder can be told to raise
 on its k-th message, and the switch-side worker can have read a prefix before the OFConnection is built.
+With via="tcp" both receivers run on a real loopback TCP connection (pvf/sim/c02_tcp.py): the real RecocoIOLoop /
+OpenFlow_01_Task generators are woken exactly for what the real select.select(timeout 0) reports on the real
+descriptors, after the harness has seen (FIONREAD) that the kernel holds every written byte at the receiving socket.
 
 Oracle (exact, per read): the stream is framed independently by pvf.ref.of10_bytes.split (declared lengths);
 after every single read exactly the messages wholly contained in the bytes received so far have been
 delivered, in order, once each, each equal to what decoding that message's bytes on their own gives;
 the connection's residual buffer is exactly the undelivered suffix; an incomplete tail is delivered
-exactly when its last byte arrives.
+exactly when its last byte arrives.  On the real-socket path "received" is measured at the kernel (bytes shown at
+the socket minus FIONREAD), and one more clause applies when the real select has nothing more to report for the
+connection: every message all of whose bytes have arrived at the socket has been delivered (`held-back`) -- a
+receiver may leave bytes of an incomplete message in the socket, it may not stop being woken for a complete one.
+If the kernel does not show the written bytes within a bounded number of polls the case is not judged
+(label skipped:tcp-not-exposed).
 """
 import bisect
 import itertools
@@ -28,13 +36,16 @@ TECHNIQUE = ("metamorphic + exact framing oracle: every segmentation of a genera
 LEVEL_TEXT = ("Exploration by generated-input search over (message sequence x segmentation): for a fixed catalogue of streams "
               "covering every message type of each direction, every 1-cut and (for the short streams) every 2-cut position and the "
               "1-byte dribble are enumerated exhaustively, plus Hypothesis-drawn sequences with k cuts biased to header-relative "
-              "offsets and to the 2048/8192-byte read boundaries. Each read is judged exactly against an independent framing of the "
+              "offsets and to the 2048/8192-byte read boundaries; a share of both runs over a real loopback TCP connection with the real "
+              "I/O loops woken by the real select (readiness as the kernel reports it). Each read is judged exactly against an independent framing of the "
               "stream. Framing code is small and deterministic, so dense enumeration of cut positions is the right level; nothing "
               "is claimed beyond the enumerated bounds.")
 LEVEL_NOTE = ("trusts the byte-level builder pvf/ref/of10_bytes.py (written from openflow.h 1.0.0) to produce well-formed messages; "
               "message *content* equality is judged against POX's own decoder applied to the single message (codec correctness is C01)")
 RULE = ("a case is (side, list of message specs built by the independent byte builder, optional truncated tail, cut positions); "
         "for the switch side also whether segments are pushed into the IOWorker or read by IOWorker._do_recv from a non-blocking socket, "
+        "or carried over a real loopback TCP connection with the real I/O loop woken by the real select (both sides; the switch-side "
+        "worker established, or connecting with the connection completing before / together with the first data), "
         "and optionally a prefix the worker has read before the OFConnection is built on it; optionally the indices of messages on "
         "which the recorder raises after recording (the raising call is that message's delivery); "
         "non-trivial when the stream has >= 2 messages and either >= 1 cut lies strictly inside a message, or a truncated tail is held, "
@@ -51,6 +62,10 @@ ASSUMPTIONS = [
   "b'' only at EOF; the select loop calls the reader once per wake-up while the socket is readable",
   "the controller socket returns at most 2048 bytes per recv and the IO loop hands at most 8192 bytes per _push_receive_data, "
   "as the real callers do",
+  "real-socket path: loopback TCP on this kernel; select() with a zero timeout called after FIONREAD has shown the bytes pending "
+  "is a function of kernel state only (readable iff pending >= SO_RCVLOWAT); the harness has at most 16384 bytes in flight and "
+  "writes the next piece only when select reports nothing more for the connection, so segment boundaries are arrival boundaries; "
+  "a case whose bytes the kernel does not show within the poll budget is not judged",
 ]
 EXHAUSTIVE_SCOPE = {
   "quick": "catalogue of 11 controller-side and 12 switch-side streams (the switch side pushed into the IOWorker, read through "
@@ -65,9 +80,16 @@ EXHAUSTIVE_SCOPE = {
            "handler raising on message k for every k of every catalogue stream <= 3000 bytes (k in {0,1,5,30,31,32,38,39} of a "
            "40-message burst) x {whole stream, cuts at/around the first 12 message boundaries, 7-byte dribble}, on all and on every "
            "second message; switch side: every prefix length (<= 420-byte streams; header-relative and 1..63 otherwise) read by the "
-           "worker before the OFConnection exists x {rest whole, rest cut after 3 bytes, 1-byte dribble}",
+           "worker before the OFConnection exists x {rest whole, rest cut after 3 bytes, 1-byte dribble}; "
+           "real loopback TCP (controller task; switch worker established / connecting, connect completing before or with the first "
+           "data): catalogue streams <= 3000 bytes x {the last d = 1..9 bytes of every message arriving on their own -- all messages at "
+           "once, with and without cuts at the boundaries, and one message at a time --, every 1-cut of streams <= 420 bytes (every "
+           "third for the connecting variants), dribbles of 1,2,3,5,7,8,9,11 bytes, held tails of 1,3,4,7 and len-9..len-1 bytes, "
+           "then completed; one-message-at-a-time and tails on the controller and the established switch worker only}, bursts of 40/300/1100 messages whole, with a 3-/5-byte last piece and a held tail, and the streams around "
+           "the read sizes in 2048-/8192-byte chunks and cuts around them",
   "thorough": "as quick, every 2-cut for streams <= 420 bytes, every 1-cut of every catalogue stream, all pairs of header-relative "
-              "and read-boundary positions for the large streams",
+              "and read-boundary positions for the large streams; real loopback TCP: streams <= 30000 bytes, header-relative 1-cuts "
+              "of the larger ones, all variants for the connecting workers",
 }
 
 _M = None
@@ -193,6 +215,7 @@ class CtlRx(object):
   """of_01.Connection on a FakeSock, handlers replaced by recorders."""
   side = "ctl"
   READ = 2048
+  quiescent = False
 
   def __init__(self, raise_at=()):
     of_01 = _M[0]
@@ -313,6 +336,7 @@ class SwRx(object):
     if k in self.raise_at:
       raise HandlerBoom("handler fails on message %d" % k)
 
+  quiescent = False
   reenter_at = frozenset()
   queue = ()
   last_piece = False
@@ -374,6 +398,174 @@ class SwIoRx(SwRx):
       after()
       if self.closed:
         return
+
+
+class _TcpRx(object):
+  """Common part of the two real-socket receivers (pvf.sim.c02_tcp): the harness end writes one piece at a time,
+  waits until the kernel shows all of it pending at the receiving socket (FIONREAD), and then lets the real loop
+  run one pass per wake-up that the real select.select(timeout 0) reports, until select reports nothing more for
+  the connection.  `received` is what the receiver has taken out of the socket (bytes arrived minus FIONREAD --
+  measured at the kernel, not asked of POX); `arrived` is what the kernel has shown at the socket; `quiescent` is
+  True in the one after() call made when select has nothing more to report."""
+  quiescent = False
+  inconclusive = None
+  pieces = 0
+  max_wakeups = 0
+  left_unread = False
+
+  def _rx_sock(self):
+    raise NotImplementedError
+
+  def _dead(self):
+    raise NotImplementedError
+
+  @property
+  def arrived(self):
+    return self.hub.writer.arrived
+
+  def push(self, seg, after):
+    from ..sim import c02_tcp as T
+    if self.inconclusive:
+      return
+    for i in range(0, len(seg), T.PIECE):
+      piece = seg[i:i + T.PIECE]
+      try:
+        self.hub.writer.write(piece, self.received)
+      except T.NotExposed as e:
+        self.inconclusive = str(e)
+        self.closed = True               # stops the case; run_case looks at .inconclusive first
+        return
+      self.pieces += 1
+      self._pump(after, self._rx_sock())
+      if self.closed:
+        return
+
+  def _pump(self, after, sock):
+    from ..sim import c02_tcp as T
+    idle = 0
+    wakeups = 0
+    for _ in range(self.arrived - self.received + 16):
+      w = self.hub.wake()
+      if w is None:
+        break
+      wakeups += 1
+      p = T.pending(sock)
+      progressed = False
+      if p >= 0:
+        taken = self.arrived - p
+        progressed = taken != self.received
+        self.received = taken
+      if p < 0 or self._dead():
+        self.closed = True
+      after()
+      if self.closed:
+        return
+      if not progressed:
+        idle += 1
+        if idle >= 3:
+          break                          # woken for the connection, takes nothing: judged below as it stands
+      else:
+        idle = 0
+    self.max_wakeups = max(self.max_wakeups, wakeups)
+    if self.received < self.arrived:
+      self.left_unread = True
+    self.quiescent = True
+    try:
+      after()
+    finally:
+      self.quiescent = False
+
+
+class SwTcpRx(_TcpRx, SwRx):
+  """OFConnection on a real RecocoIOWorker registered with a real RecocoIOLoop, on a loopback TCP socket."""
+  side = "sw"
+
+  def __init__(self, raise_at=(), connecting=False, settle=False):
+    from ..sim import c02_tcp as T
+    self.delivered = []
+    self.raise_at = frozenset(raise_at)
+    self.received = 0
+    self.closed = False
+    self.conn = None
+    self.world = W.World()
+    self.hub = None
+    try:
+      self.hub = T.SwitchTcp(self.world, self._build_on, connecting)
+      self.worker = self.hub.worker
+      if settle:
+        for _ in range(8):
+          if self.hub.wake() is None:
+            break
+    except BaseException:
+      self.finish()
+      raise
+
+  def _build_on(self, worker):
+    self.worker = worker
+    self._build()
+
+  def _rx_sock(self):
+    return self.hub.rx_sock
+
+  def _dead(self):
+    return self.worker.closed or not self.hub.alive or not self.hub.registered()
+
+  def finish(self):
+    try:
+      if self.hub is not None:
+        self.hub.close()
+    finally:
+      self.world.close()
+
+  @property
+  def loop_error(self):
+    if self.hub is not None and not self.hub.alive:
+      return self.hub.sl.ended
+    return None
+
+
+class CtlTcpRx(_TcpRx, CtlRx):
+  """of_01.Connection accepted by the real OpenFlow_01_Task from its own listening socket on loopback."""
+  side = "ctl"
+
+  def __init__(self, raise_at=()):
+    from ..sim import c02_tcp as T
+    self.delivered = []
+    self.raise_at = frozenset(raise_at)
+    self.received = 0
+    self.closed = False
+    self.world = W.World()
+    _M[0].deferredSender = _Stub()
+    self.hub = None
+    try:
+      self.hub = T.ControllerTcp(self.world)
+      self.con = self.hub.accept()
+      if self.con is None or not self.hub.alive:
+        raise HarnessError("the controller task did not accept the loopback connection")
+      self.sock = self.con.sock
+      self.con.handlers = [self._rec] * 256
+    except BaseException:
+      self.finish()
+      raise
+
+  def _rx_sock(self):
+    return self.sock
+
+  def _dead(self):
+    return not self.hub.alive or not any(c is self.con for c in self.hub.selected)
+
+  def finish(self):
+    try:
+      if self.hub is not None:
+        self.hub.close()
+    finally:
+      self.world.close()
+
+  @property
+  def loop_error(self):
+    if self.hub is not None and not self.hub.alive:
+      return self.hub.ended
+    return None
 
 
 # --------------------------------------------------------------------------- the case
@@ -473,25 +665,35 @@ def run_case(case):
 
   # ---- run
   via = case.get("via", "push")
-  if via not in ("push", "recv", "loop") or (via == "recv" and side != "sw") or (via == "loop" and side != "ctl"):
+  if via not in ("push", "recv", "loop", "tcp") or (via == "recv" and side != "sw") or (via == "loop" and side != "ctl"):
     raise HarnessError("via=%r is not defined for side %r" % (via, side))
+  if via == "tcp" and (pre or case.get("reenter")):
+    raise HarnessError("via=tcp has no early-data / re-entrant variants")
   reenter = sorted(set(int(k) for k in (case.get("reenter") or [])))
   if reenter and not (side == "sw" and via == "push"):
     raise HarnessError("re-entrant pushes are a switch-side via=push scenario")
   state = {"bad": False, "k": 0, "burst": 0, "after_raise": 0}
   try:
     connecting = bool(case.get("connecting"))
-    if connecting and (via != "recv" or pre):
-      raise HarnessError("a connecting worker is a via=recv scenario without early data")
+    if connecting and (via not in ("recv", "tcp") or pre or side != "sw"):
+      raise HarnessError("a connecting worker is a switch-side via=recv/tcp scenario without early data")
     if side == "ctl":
-      rx = CtlLoopRx(raise_at) if via == "loop" else CtlRx(raise_at)
-      out.label("via:" + ("task-loop" if via == "loop" else "read"))
+      rx = CtlTcpRx(raise_at) if via == "tcp" else CtlLoopRx(raise_at) if via == "loop" else CtlRx(raise_at)
+      out.label("via:" + ("tcp" if via == "tcp" else "task-loop" if via == "loop" else "read"))
+    elif via == "tcp":
+      rx = SwTcpRx(raise_at, connecting, bool(case.get("settle")))
+      if connecting:
+        out.label("tcp:connect-%s" % ("before-data" if case.get("settle") else "with-data"))
     else:
       rx = (SwIoRx if via == "recv" else SwRx)(raise_at, stream[:pre], connecting)
       rx.reenter_at = frozenset(reenter)
     if connecting:
       out.label("connecting:first-seg-%s" % (len(segs[0]) if len(segs[0]) <= 8 else "9+"))
   except Exception as e:
+    if via == "tcp" and type(e).__name__ == "NotExposed":
+      out.nontrivial = False
+      out.label("skipped:tcp-setup")
+      return out
     if W_is_harness(e):
       raise
     out.violations.append({"key": exc_key(e, clause="setup-raises", side=side),
@@ -533,6 +735,16 @@ def run_case(case):
       out.fail("delivered-late", "after %d bytes received, %d messages are complete but only %d were delivered" % (got, k, nd), side=side)
       state["bad"] = True
       return
+    if rx.quiescent:
+      # real-socket path: the real select has nothing more to report for this connection
+      ka = bisect.bisect_right(ends, rx.arrived)
+      if nd < ka:
+        out.fail("held-back", "all %d bytes written so far are at the receiving socket (the kernel showed them pending) and %d "
+                 "messages are complete, but with only %d bytes taken out of the socket the loop's own select() is no longer "
+                 "woken for the connection and %d messages have been delivered (message %d is held back)" % (
+                     rx.arrived, ka, got, nd, nd), side=side)
+        state["bad"] = True
+        return
     lo = ends[k - 1] if k else 0
     want = full[lo:got]
     res = rx.residual()
@@ -557,9 +769,28 @@ def run_case(case):
   finally:
     if hasattr(rx, "finish"):
       rx.finish()
-  if getattr(rx, "loop_error", None) is not None:
-    out.fail("loop-ended", "the controller's task loop ended while serving a well-formed stream: %r" % (rx.loop_error,), side=side)
+  if getattr(rx, "inconclusive", None):
+    # the kernel never showed the written bytes at the receiving socket: nothing was observed, nothing is judged
+    out.nontrivial = False
+    out.label("skipped:tcp-not-exposed")
     return out
+  if getattr(rx, "loop_error", None) is not None:
+    out.fail("loop-ended", "the %s task loop ended while serving a well-formed stream: %r" % (
+        "controller's" if side == "ctl" else "switch's I/O", rx.loop_error,), side=side)
+    return out
+  if via == "tcp":
+    out.label("tcp:wakeups-per-piece:%s" % ("0-1" if rx.max_wakeups < 2 else "2+"))
+    if rx.left_unread:
+      out.label("tcp:bytes-left-in-socket")
+    # the classes the kernel's readiness rule can tell apart: how many bytes the piece that completes a message brings
+    last = 0
+    short = False
+    endset = set(ends)
+    for b in sorted(set(bounds[1:] + ([len(full)] if complete else []))):
+      if b in endset and 0 < b - last < 8:
+        short = True
+      last = b
+    out.label("tcp:completing-piece:%s" % ("1-7-bytes" if short else "8+bytes"))
   if reenter:
     out.label("reenter:%s" % ("none" if not rx.nested else "nested-push"))
     if rx.nested and len(msgs) >= 2:
@@ -575,8 +806,8 @@ def run_case(case):
     out.nontrivial = True
   if state["bad"]:
     return out
-  if rx.received != len(full):
-    raise HarnessError("receiver consumed %d of %d bytes" % (rx.received, len(full)))
+  if getattr(rx, "arrived", rx.received) != len(full):
+    raise HarnessError("receiver was given %d of %d bytes" % (getattr(rx, "arrived", rx.received), len(full)))
   # ---- content and order
   want = exp[:len(ends)]
   got = [sig(m) for m in rx.delivered]
@@ -878,6 +1109,79 @@ def enum_tail(tier):
         yield dict(extra, side=side, msgs=cat[0][1][:2], tail={"spec": big, "keep": keep, "complete": complete}, cuts=[5])
 
 
+def _tcp_sides():
+  """(side, extra) for the real-socket path: the controller task with its own listener; the switch-side worker on an
+  established socket, and as pox.datapaths runs it -- a connecting worker whose connect handler builds the
+  OFConnection, with the connection completing before the first data or together with it."""
+  return [("ctl", {"via": "tcp"}), ("sw", {"via": "tcp"}), ("sw", {"via": "tcp", "connecting": True}),
+          ("sw", {"via": "tcp", "connecting": True, "settle": True})]
+
+
+def enum_tcp(tier):
+  """Readiness as the kernel reports it: the streams travel over a loopback TCP connection, the real loops are
+  woken by the real select.  What the kernel's readiness rule can tell apart is how many bytes are pending when
+  a piece arrives, so the segmentations are dense in the size of the piece that completes a message (1..9 bytes
+  before every message end, every 1-cut of the short streams, small-chunk dribbles, held tails completed by
+  1..9 bytes) and sparse elsewhere; pieces larger than one read (2048 / 8192) make one arrival need several
+  wake-ups."""
+  quick = tier == "quick"
+  for side, extra in _tcp_sides():
+    first = not extra.get("connecting")
+    for name, specs in catalogue(side):
+      lens = _lens(specs)
+      total = sum(lens)
+      if total > (3000 if quick else 30000):
+        continue
+      base = dict(extra, side=side, msgs=specs)
+      bnds = [sum(lens[:i]) for i in range(1, len(lens) + 1)]
+      # every message's last d bytes arrive on their own (d = 1..9), all messages at once and one message at a time
+      for d in range(1, 10):
+        yield dict(base, cuts=[b - d for b in bnds])
+        yield dict(base, cuts=sorted(set([b - d for b in bnds] + bnds[:-1])))
+        if first or not quick:
+          for b in bnds:
+            yield dict(base, cuts=[b - d])
+            yield dict(base, cuts=[c for c in (b - lens[bnds.index(b)], b - d) if c > 0])
+      if total <= 420 or not quick:
+        cuts = range(1, total) if total <= 420 else _special_offsets(lens, total)
+        if not first and quick:
+          cuts = [c for c in cuts if c <= 12 or c % 3 == 0]
+        for c in cuts:
+          yield dict(base, cuts=[c])
+      for ch in (1, 2, 3, 5, 7, 8, 9, 11):
+        if ch == 1 and total > 600 and quick:
+          continue
+        yield dict(base, chunk=ch)
+      # a held tail completed by its last d bytes
+      if first or not quick:
+        for tspec in specs[:3]:
+          tl = len(R.build(tspec).data)
+          for keep in sorted(set([1, 3, 4, 7] + [tl - d for d in range(1, 10)])):
+            if 0 < keep < tl:
+              for complete in (False, True):
+                yield dict(base, msgs=specs[1:3], tail={"spec": tspec, "keep": keep, "complete": complete}, cuts=[])
+    # one arrival larger than a read: several wake-ups for one piece, with a short completing piece behind it
+    for count in (40, 300, 1100):
+      specs = burst_specs(side, count, 2)
+      total = sum(_lens(specs))
+      base = dict(extra, side=side, msgs=specs)
+      yield dict(base, cuts=[])
+      yield dict(base, cuts=[total - 3])
+      yield dict(base, cuts=[total // 2 + 1, total - 5])
+      yield dict(base, cuts=[], tail={"spec": specs[0], "keep": 5, "complete": True})
+    big = [n for n in catalogue(side) if n[0] in ("G", "big1")]
+    for name, specs in big:
+      lens = _lens(specs)
+      total = sum(lens)
+      base = dict(extra, side=side, msgs=specs)
+      yield dict(base, cuts=[])
+      for d in (1, 4, 7, 8):
+        yield dict(base, cuts=[sum(lens[:i]) - d for i in range(1, len(lens) + 1)])
+      for unit in (2048, 8192):
+        yield dict(base, chunk=unit)
+        yield dict(base, cuts=[c for c in (unit - 1, unit, unit + 1, 2 * unit + 3) if c < total])
+
+
 # --------------------------------------------------------------------------- Hypothesis
 
 @st.composite
@@ -940,6 +1244,14 @@ def case_strategy(draw, tier):
     case["via"] = "recv"
     if draw(st.integers(0, 2)) == 0:
       case["connecting"] = True
+  tcp = total < 40000 and draw(st.integers(0, 7)) == 0      # an eighth: over loopback TCP, woken by the real select
+  if tcp:
+    case["via"] = "tcp"
+    case.pop("connecting", None)
+    if side == "sw" and draw(st.booleans()):
+      case["connecting"] = True
+      if draw(st.booleans()):
+        case["settle"] = True
   if draw(st.integers(0, 3)) == 0:
     tspec = draw(spec_strategy(side, small=draw(st.booleans())))
     tl = len(R.build(tspec).data)
@@ -948,7 +1260,7 @@ def case_strategy(draw, tier):
     total += max(1, min(case["tail"]["keep"], tl - 1))
   if draw(st.integers(0, 3)) == 0:
     case["raise"] = sorted(set(draw(st.lists(st.integers(0, max(0, nm - 1)), min_size=1, max_size=3))))
-  if side == "sw" and not case.get("connecting") and draw(st.integers(0, 3)) == 0:
+  if side == "sw" and not case.get("connecting") and not tcp and draw(st.integers(0, 3)) == 0:
     case["pre"] = draw(st.one_of(st.integers(1, 40), st.integers(1, max(1, total - 1))))
   if side == "sw" and "via" not in case and draw(st.integers(0, 3)) == 0:
     case["reenter"] = sorted(set(draw(st.lists(st.integers(0, max(0, nm - 1)), min_size=1, max_size=3))))
@@ -988,5 +1300,6 @@ def plan(tier):
     Enum("raises", lambda: enum_raises(tier), shards=2 if tier == "quick" else 16),
     Enum("early", lambda: enum_early(tier), shards=2 if tier == "quick" else 16),
     Enum("reenter", lambda: enum_reenter(tier), shards=2 if tier == "quick" else 16),
+    Enum("tcp", lambda: enum_tcp(tier), shards=4 if tier == "quick" else 16),
     Hyp("kcuts", lambda: case_strategy(tier), examples=n, shards=8 if tier == "quick" else 16),
   ]
